@@ -468,7 +468,7 @@ def suite_ple(g, n, big=False):
         else:
             # _mzd_ple_russian needs an owned, non-windowed copy (that is how _mzd_ple calls it)
             M = g.mat(r, c, rows, place='o')
-            g.add(op, '%s %s %s %d' % (M, P, Q, rng.randint(0, 10)), r=r, c=c)
+            g.add(op, '%s %s %s %d' % (M, P, Q, rng.randint(0, 9)), r=r, c=c)   # kk = 7k <= 64 is asserted
 
 
 def tri_rows(g, n, upper, junk=True):
@@ -525,10 +525,14 @@ def suite_inverse(g, n, big=False):
             g.add(op, '%s' % U, n=nn)
 
 
-def suite_solve(g, n, big=False):
+def suite_solve(g, n, big=False, kernel=True, only_kernel=False):
     rng = g.rng
     for _ in range(n):
         op = rng.choice(['solve_left', 'solve_left', 'pluq_solve_left', 'kernel'])
+        if only_kernel:
+            op = 'kernel'
+        elif not kernel and op == 'kernel':
+            op = 'solve_left'
         m, nn = edim(g, big), edim(g, big)
         rows = profile_matrix(g, m, nn)
         A = g.mat(m, nn, rows)
@@ -562,3 +566,219 @@ def suite_solve(g, n, big=False):
             B = [0] * R
         check = rng.choice([1, 1, 1, 0])
         g.add(op, '%s %s %d %d' % (A, g.mat(R, k, B), rng.choice([0, 0, 64, 128]), check), m=m, n=nn, k=k, mode=mode)
+
+
+# ------------------------------------------------------------------ C14
+ALLOC_SIZES = [(3, 70), (3, 70), (2, 10), (5, 130), (0, 5), (4, 0)]
+
+
+def alloc_line(g, nb, cm, th, ops):
+    g.add('alloc_seq', '%d %d %d %s' % (nb, cm, th, ' '.join(ops)), nops=len(ops))
+
+
+def alloc_enumerate(g, nb, cm, th, maxlen, big):
+    """bounded-exhaustive operation sequences over a small alphabet"""
+    sizes = [(3, 70), (2, 10), (0, 5)] + ([big] if big else [])
+    def rec(ops, handles, live):
+        if ops:
+            alloc_line(g, nb, cm, th, ops)
+        if len(ops) >= maxlen:
+            return
+        for (r, c) in sizes:
+            rec(ops + ['i.%d.%d' % (r, c)], handles + [('m', r, c)], live | {len(handles)})
+        for h in sorted(live):
+            rec(ops + ['f.%d' % h], handles, live - {h})
+            if handles[h][0] == 'm' and handles[h][1] and handles[h][2] >= 1:
+                rec(ops + ['w.%d.0.0.%d.%d' % (h, max(1, handles[h][1] - 1), min(handles[h][2], 64))],
+                    handles + [('w', 0, 0)], live | {len(handles)})
+        if ops and ops[-1] != 'c':
+            rec(ops + ['c'], handles, live)
+    rec([], [], set())
+
+
+def alloc_random(g, nb, cm, th, nseq, length, big, many_headers=False):
+    rng = g.rng
+    for _ in range(nseq):
+        ops, handles, live = [], [], set()
+        for _ in range(length):
+            x = rng.random()
+            if many_headers and x < 0.75 or (not live) or x < 0.4:
+                r, c = rng.choice(ALLOC_SIZES + ([big] if big and rng.random() < 0.3 else []))
+                if rng.random() < 0.2:
+                    r, c = rng.randint(0, 6), rng.randint(0, 200)
+                ops.append('i.%d.%d' % (r, c)); handles.append(('m', r, c)); live.add(len(handles) - 1)
+            elif x < 0.5:
+                h = rng.choice(sorted(live))
+                if handles[h][0] == 'm' and handles[h][1] and handles[h][2]:
+                    ops.append('w.%d.0.0.%d.%d' % (h, handles[h][1], min(handles[h][2], 64)))
+                    handles.append(('w', 0, 0)); live.add(len(handles) - 1)
+            elif x < 0.95:
+                h = rng.choice(sorted(live)); ops.append('f.%d' % h); live.discard(h)
+            else:
+                ops.append('c')
+        if rng.random() < 0.5:
+            # free everything in a random order, then finalise
+            order = sorted(live); rng.shuffle(order)
+            ops += ['f.%d' % h for h in order] + ['c']
+        alloc_line(g, nb, cm, th, ops)
+
+
+def suite_ple_recursive(g, n):
+    """shapes that enter the block-recursive PLE (and L compression) when PLE_CUTOFF is 8192 words:
+    width * nrows > 8192 and ncols > 64, with rank profiles that make r1 a multiple of 64 or not, r2 > 0 etc."""
+    rng = g.rng
+    for _ in range(n):
+        op = rng.choice(['ple', 'pluq', 'echelonize_pluq', 'kernel', 'solve_left'])
+        c = rng.choice([1100, 1300, 1800, 2100])
+        w = (c + 63) // 64
+        r = 8192 // w + rng.randint(2, 40)
+        n1 = (((c - 1) // 64 + 1) >> 1) * 64
+        r1 = rng.choice([0, 1, 63, 64, 65, 128, 130, min(r, n1) // 2, min(r - 1, n1)])
+        r1 = max(0, min(r1, n1, r - 1))
+        r2 = rng.choice([0, 1, 70, 128, 130, 200])
+        r2 = max(0, min(r2, c - n1, r - r1))
+        left = sorted(rng.sample(range(n1), r1)) if r1 else []
+        right = sorted(rng.sample(range(n1, c), r2)) if r2 else []
+        rows, _ = g.rank_profile_rows(r, c, pivots=left + right)
+        # keep some rows zero at the bottom sometimes (first_zero_row truncation)
+        if rng.random() < 0.3:
+            z = rng.randint(1, 5)
+            rows = rows[:-z] + [0] * z
+        M = g.mat(r, c, rows, place=g.place(window=(rng.random() < 0.3)))
+        if op in ('ple', 'pluq'):
+            g.add(op, '%s %s %s %d' % (M, junk_perm(g, r), junk_perm(g, c), rng.choice([0, 64, 256])), r=r, c=c, r1=r1, r2=r2)
+        elif op == 'echelonize_pluq':
+            g.add(op, '%s %d' % (M, rng.randint(0, 1)), r=r, c=c)
+        elif op == 'kernel':
+            g.add(op, '%s %d' % (M, 0), m=r, n=c)
+        else:
+            R = max(r, c)
+            k = rng.choice([1, 65])
+            X0 = g.rows_random(c, k)
+            B = []
+            for i in range(R):
+                v = 0
+                if i < r:
+                    a = rows[i]
+                    j = 0
+                    while a:
+                        if a & 1:
+                            v ^= X0[j]
+                        a >>= 1
+                        j += 1
+                B.append(v)
+            if rng.random() < 0.3:
+                B[rng.randrange(R)] ^= 1
+            g.add(op, '%s %s %d %d' % (M, g.mat(R, k, B), 0, 1), m=r, n=c, k=k)
+
+
+def suite_guards(g, n):
+    """calls to the checked public wrappers with incompatible dimensions: the model says `die`, the operands
+    must be untouched (the harness compares every allocation with its snapshot)"""
+    rng = g.rng
+    for _ in range(n):
+        a, b, c, d = (rng.randint(1, 70) for _ in range(4))
+        if a == b:
+            b += 1
+        op = rng.choice(['mul', 'addmul', 'mul_m4rm', 'addmul_m4rm', 'mul_naive', 'addmul_naive', 'add', 'copy', 'concat',
+                         'stack', 'submatrix', 'transpose', 'trsm_ll', 'trsm_ul', 'trsm_ur', 'trsm_lr', 'ple', 'pluq',
+                         'solve_left', 'mulneg'])
+        M = lambda r, cc: g.mat(r, cc, kind='dense')
+        if op in ('mul', 'addmul', 'mul_m4rm', 'addmul_m4rm'):
+            kind = rng.choice(['inner', 'cdims'])
+            if kind == 'inner':
+                g.add(op, '%s %s %s 0' % (M(c, d), M(c, a), M(b, d)))
+            else:
+                g.add(op, '%s %s %s 0' % (M(c + 1, d), M(c, a), M(a, d)))
+        elif op == 'mulneg':
+            g.add('mul', '%s %s %s -1' % (M(c, d), M(c, a), M(a, d)))
+        elif op in ('mul_naive', 'addmul_naive'):
+            g.add(op, '%s %s %s' % (M(c, d + 1), M(c, a), M(a, d)))
+        elif op == 'add':
+            if rng.random() < 0.5:
+                g.add(op, '%s %s %s' % (M(a, c), M(a, c), M(b, c)))
+            else:
+                g.add(op, '%s %s %s' % (M(a, c + 1), M(a, c), M(a, c)))
+        elif op == 'copy':
+            g.add(op, '%s %s' % (M(a, c), M(a + 1, c)))
+        elif op == 'concat':
+            g.add(op, '%s %s %s' % (rng.choice(['null', M(a, c + d)]), M(a, c), M(b, d)))
+        elif op == 'stack':
+            g.add(op, '%s %s %s' % (rng.choice(['null', M(c + d, a)]), M(c, a), M(d, b)))
+        elif op == 'submatrix':
+            g.add(op, '%s %s 0 0 %d %d' % (M(a, c), M(a + 3, c + 3), a + 1, c))
+        elif op == 'transpose':
+            g.add(op, '%s %s' % (M(a, c + 1), M(c, a)))
+        elif op in ('trsm_ll', 'trsm_ul'):
+            g.add(op, '%s %s 0' % (M(a, a), M(b, c)))
+        elif op in ('trsm_ur', 'trsm_lr'):
+            g.add(op, '%s %s 0' % (M(a, a), M(c, b)))
+        elif op in ('ple', 'pluq'):
+            if rng.random() < 0.5:
+                g.add(op, '%s %s %s 0' % (M(a, c), g.perm(a + 1, a + 1, 'identity'), g.perm(c, c, 'identity')))
+            else:
+                g.add(op, '%s %s %s 0' % (M(a, c), g.perm(a, a, 'identity'), g.perm(c + 1, c + 1, 'identity')))
+        elif op == 'solve_left':
+            g.add(op, '%s %s 0 1' % (M(a, c), M(max(a, c) + 1, d)))
+
+
+# ------------------------------------------------------------------ C19 (finite domains: exhaustive)
+def suite_c19(g, tier):
+    rng = g.rng
+    quick = (tier == 'quick')
+    for k in range(1, 17):
+        g.add('codebook', '%d' % k, k=k)
+    for l in range(1, 17):
+        for i in ([0, 1, 2, 3, (1 << l) - 1, (1 << l) // 2] + [rng.randrange(1 << l) for _ in range(20)]):
+            if i < (1 << l):
+                g.add('gray_code', '%d %d' % (i, l))
+    for a in [1, 2, 3, 7, 8, 15, 16, 100, 1000, 65535, 65536, 1 << 20]:
+        for b in [1, 5, 64, 1 << 20]:
+            g.add('opt_k', '%d %d' % (a, b))
+    # all 65 mask lengths x 64 offsets
+    for n in range(0, 65):
+        g.add('mask', '0 %d 0' % n)
+        if n >= 1:
+            g.add('mask', '1 %d 0' % n)
+        for off in range(0, 64):
+            if n >= 1 and n + off <= 64:
+                g.add('mask', '2 %d %d' % (n, off))
+    # GF(2)-linear kernels: complete single-bit basis plus random combinations
+    for i in range(64):
+        for b in range(64 if not quick else 64):
+            ws = ['x0'] * 64
+            ws[i] = 'x%x' % (1 << b)
+            if quick and (i * 64 + b) % 7:
+                continue
+            g.add('parity64', ' '.join(ws))
+    for _ in range(60 if quick else 1000):
+        g.add('parity64', ' '.join('x%x' % rng.getrandbits(64) for _ in range(64)))
+    for b in range(64):
+        g.add('swap_bits', 'x%x' % (1 << b))
+    for _ in range(200):
+        g.add('swap_bits', 'x%x' % rng.getrandbits(64))
+    for b in range(64):
+        for c in range(64):
+            g.add('lesser_lsb', 'x%x x%x' % ((1 << b) | (rng.getrandbits(64) >> b << b), (1 << c) | (rng.getrandbits(64) >> c << c)))
+    g.add('lesser_lsb', 'x0 x0'); g.add('lesser_lsb', 'x0 x5'); g.add('lesser_lsb', 'x5 x0')
+    for _ in range(300 if quick else 5000):
+        length = rng.randint(1, 16)
+        base = rng.randint(0, 100)
+        span = rng.randint(length, 64)
+        Q = sorted(rng.sample(range(span), length))
+        Qs = 'p %d %s' % (length, ' '.join(str(base + q) for q in Q))
+        w = rng.getrandbits(length)
+        g.add('spread', 'x%x %s %d %d' % (w, Qs, length, base))
+        g.add('shrink', 'x%x %s %d %d' % (rng.getrandbits(64), Qs, length, base))
+    for b in range(16):
+        Qs = 'p 16 ' + ' '.join(str(3 * i) for i in range(16))
+        g.add('spread', 'x%x %s 16 0' % (1 << b, Qs))
+        g.add('shrink', 'x%x %s 16 0' % (1 << (3 * b), Qs))
+    # make_table: every x of every k <= 8 (and 9..10 in the thorough tier), tables starting in every word phase
+    for k in range(1, 9 if quick else 11):
+        for _ in range(3 if quick else 12):
+            c_ = rng.choice([0, 0, 1, 17, 63, 64, 65, 100])
+            ncols = c_ + k + rng.choice([0, 1, 20, 64, 70, 130])
+            nrows = rng.randint(k, k + 5)
+            r = rng.randint(0, nrows - k)
+            g.add('make_table', '%s %d %d %d' % (g.mat(nrows, ncols, kind='dense'), r, c_, k), k=k)
